@@ -19,7 +19,7 @@ Open Scope N_scope.
 Definition C08_enumeration_shape_pinned : pin_c08_enum_ok = true := eq_refl.
 
 (* which branch is live on the tree under test: (lookup, non-.j2, support-templates) repairs recognised, call path effect-free *)
-Eval vm_compute in (k_fix_lookup the_code, k_fix_nonj2 the_code, k_fix_suptpl the_code, k_path_pure the_code).
+Eval vm_compute in (k_fix_lookup the_code, k_fix_nonj2 the_code, k_fix_suptpl the_code, k_path_pure the_code, k_ns_check the_code).
 
 (* (1) For ALL configurations (language data, flags, overrides, template directories), ALL input sets and ALL file systems:
    if the real run (same options, no listing/dry-run flag) succeeds from an empty output tree, then --list-outputs with the same
@@ -50,11 +50,13 @@ Print Assumptions C08_list_modes_pure.
    and the DSDL sources of the dependency closure of every generated type.  Configuration inputs (lang/properties.yaml and
    --configuration files) also influence the output; they are neither templates nor DSDL files, --list-inputs does not name
    them (Example C08_config_inputs_not_listed), and the statement excludes them explicitly.
+   `ns_clash` (a namespace file whose path is a type's file: build_namespace_tree raises before anything is listed) and `rejected`
+   are the two configurations in which no mode does anything at all.
    Residual hypotheses: no Python package file (.py/.pyc) is in the template closure, and no rendered support template refers
    to further templates (the support listing names the rendered resources only). *)
 Theorem C08_list_inputs_complete :
   k_fix_lookup the_code = true -> k_fix_nonj2 the_code = true -> k_fix_suptpl the_code = true ->
-  forall (c : cfg) (i : inputs), f_lc (c_flags c) = false -> rejected c = false ->
+  forall (c : cfg) (i : inputs), f_lc (c_flags c) = false -> rejected c = false -> ns_clash the_code c i = false ->
   trig_py the_code c i = false -> trig_sup_refs the_code c = false ->
   forall x, In x (all_influences the_code c i) -> is_config_input c x = false ->
   forall f, exists out, run the_code (li_of c) i f = (f, out, Ok) /\ In x out.
@@ -64,7 +66,7 @@ Print Assumptions C08_list_inputs_complete.
 (* (3') The same for a tree that lacks some of the repairs: the EFFECTIVE triggers (the eff_trig definitions in Gen/Listing.v) are
    identically false for a repair the translator recognises; otherwise they are the triggers of the historical findings. *)
 Theorem C08_list_inputs_complete_partial :
-  forall (c : cfg) (i : inputs), f_lc (c_flags c) = false -> rejected c = false ->
+  forall (c : cfg) (i : inputs), f_lc (c_flags c) = false -> rejected c = false -> ns_clash the_code c i = false ->
   eff_trig_lookup the_code i = false -> eff_trig_tpl the_code c i = false -> eff_trig_sup the_code c = false ->
   (k_fix_suptpl the_code || support_consistent c) = true ->
   forall x, In x (influence_set the_code c i) ->
@@ -107,7 +109,7 @@ Proof. exact example_real_run. Qed.
 
 Example C08_completeness_hypotheses_satisfiable :
   let c := w_cfg SAsNeeded false None None in
-  rejected c = false /\ eff_trig_lookup the_code w_inputs_plain = false /\ eff_trig_tpl the_code c w_inputs_plain = false
+  rejected c = false /\ ns_clash the_code c w_inputs_plain = false /\ eff_trig_lookup the_code w_inputs_plain = false /\ eff_trig_tpl the_code c w_inputs_plain = false
   /\ eff_trig_sup the_code c = false /\ support_consistent c = true /\ trig_py the_code c w_inputs_plain = false
   /\ trig_sup_refs the_code c = false
   /\ path_in [[114]; [66]] (influence_set the_code c w_inputs_plain) = true
@@ -134,6 +136,12 @@ Example C08_only_pod_lists_nothing :
   /\ snd (run the_code (real_of c) w_inputs_plain fs_empty) = Ok
   /\ created c w_inputs_plain [[111]; [110]; [115; 46; 104]] = None.
 Proof. exact example_only_pod. Qed.
+
+Example C08_namespace_clash_refused : k_ns_check the_code = true ->
+  run the_code (real_of w_cfg_clash) w_inputs_plain fs_empty = (fs_empty, [], NsClash)
+  /\ snd (run the_code (lo_of w_cfg_clash) w_inputs_plain fs_empty) = NsClash
+  /\ snd (fst (run the_code (li_of w_cfg_clash) w_inputs_plain fs_empty)) = [].
+Proof. exact example_ns_clash. Qed.
 
 Example C08_rejection_reachable : rejected (w_cfg SAlways true None None) = true.
 Proof. exact example_rejected. Qed.
